@@ -48,9 +48,9 @@ def main():
         # demo on the clean tree
         has_demo_patch = os.path.exists(os.path.join(d, 'demo_test.patch'))
         if has_demo_patch:
-            rc, out = sh('git apply %s' % os.path.join(d, 'demo_test.patch'), cwd=REPO)
-            rc2, out2 = sh('cargo test --offline seeded_demo 2>&1 | tail -5', cwd=REPO, env={'CARGO_TARGET_DIR': TGT})
-            meta['demo_clean'] = 'pass' if ('test result: ok' in out2 and rc == 0) else 'FAIL: ' + out2[-200:]
+            rc, out = sh('git apply -C1 %s' % os.path.join(d, 'demo_test.patch'), cwd=REPO)
+            rc2, out2 = sh('cargo test --offline seeded_demo 2>&1 | grep -E "^test result|^test .*(ok|FAILED)$"', cwd=REPO, env={'CARGO_TARGET_DIR': TGT})
+            meta['demo_clean'] = 'pass' if (rc == 0 and re.search(r'test result: ok\. [1-9]\d* passed; 0 failed', out2) and 'FAILED' not in out2) else 'FAIL: ' + out2[-200:]
             clean_repo()
         else:
             r = run_demo(d)
@@ -67,10 +67,10 @@ def main():
         oks = re.findall(r'test result: ok\. (\d+) passed; 0 failed', out)
         meta['suite_with_change'] = 'pass (%s)' % '+'.join(oks) if len(oks) == 3 and sum(map(int, oks)) == 68 else 'FAIL: ' + out[-300:]
         if has_demo_patch:
-            rc, _ = sh('git apply %s' % os.path.join(d, 'demo_test.patch'), cwd=REPO)
-            rc2, out2 = sh('cargo test --offline seeded_demo 2>&1 | tail -8', cwd=REPO, env={'CARGO_TARGET_DIR': TGT})
-            meta['demo_with_change'] = 'fails (as intended)' if 'FAILED' in out2 or 'failed' in out2 else 'PASSES?: ' + out2[-200:]
-            sh('git apply -R %s' % os.path.join(d, 'demo_test.patch'), cwd=REPO)
+            rc, _ = sh('git apply -C1 %s' % os.path.join(d, 'demo_test.patch'), cwd=REPO)
+            rc2, out2 = sh('cargo test --offline seeded_demo 2>&1 | grep -E "^test result|^test .*(ok|FAILED)$"', cwd=REPO, env={'CARGO_TARGET_DIR': TGT})
+            meta['demo_with_change'] = 'fails (as intended)' if (rc == 0 and re.search(r'test result: FAILED|[1-9]\d* failed', out2)) else 'PASSES?: ' + out2[-200:]
+            sh('git apply -R -C1 %s' % os.path.join(d, 'demo_test.patch'), cwd=REPO)
         else:
             r = run_demo(d)
             meta['demo_with_change'] = None if r is None else ('fails (as intended) rc=%d' % r[0] if r[0] != 0 else 'PASSES?')
